@@ -140,6 +140,8 @@ impl KeyKeeperSharedState {
                         key: new_key,
                         response,
                     }) => {
+                        #[cfg(azure_guestproxyagent_verif)]
+                        crate::shared_state::verif_actor::on_message("key_keeper", "SetKey");
                         key = new_key.clone();
                         if response.send(()).is_err() {
                             logger::write_warning(format!(
@@ -149,6 +151,8 @@ impl KeyKeeperSharedState {
                         }
                     }
                     Some(KeyKeeperAction::GetKey { response }) => {
+                        #[cfg(azure_guestproxyagent_verif)]
+                        crate::shared_state::verif_actor::on_message("key_keeper", "GetKey");
                         if let Err(key) = response.send(key.clone()) {
                             logger::write_warning(format!(
                                 "Failed to send response to KeyKeeperAction::GetKey with guid '{:?}'",
@@ -157,6 +161,8 @@ impl KeyKeeperSharedState {
                         }
                     }
                     Some(KeyKeeperAction::SetSecureChannelState { state, response }) => {
+                        #[cfg(azure_guestproxyagent_verif)]
+                        crate::shared_state::verif_actor::on_message("key_keeper", "SetSecureChannelState");
                         current_secure_channel_state = state.to_string();
                         if response.send(()).is_err() {
                             logger::write_warning(format!(
@@ -166,6 +172,8 @@ impl KeyKeeperSharedState {
                         }
                     }
                     Some(KeyKeeperAction::GetSecureChannelState { response }) => {
+                        #[cfg(azure_guestproxyagent_verif)]
+                        crate::shared_state::verif_actor::on_message("key_keeper", "GetSecureChannelState");
                         if let Err(state) = response.send(current_secure_channel_state.clone()) {
                             logger::write_warning(format!(
                                 "Failed to send response to KeyKeeperAction::GetSecureChannelState '{}'",
@@ -174,6 +182,8 @@ impl KeyKeeperSharedState {
                         }
                     }
                     Some(KeyKeeperAction::SetWireServerRuleId { rule_id, response }) => {
+                        #[cfg(azure_guestproxyagent_verif)]
+                        crate::shared_state::verif_actor::on_message("key_keeper", "SetWireServerRuleId");
                         wireserver_rule_id = rule_id.to_string();
                         if response.send(()).is_err() {
                             logger::write_warning(format!(
@@ -183,6 +193,8 @@ impl KeyKeeperSharedState {
                         }
                     }
                     Some(KeyKeeperAction::GetWireServerRuleId { response }) => {
+                        #[cfg(azure_guestproxyagent_verif)]
+                        crate::shared_state::verif_actor::on_message("key_keeper", "GetWireServerRuleId");
                         if let Err(rule_id) = response.send(wireserver_rule_id.clone()) {
                             logger::write_warning(format!(
                                 "Failed to send response to KeyKeeperAction::GetWireServerRuleId '{}'",
@@ -191,6 +203,8 @@ impl KeyKeeperSharedState {
                         }
                     }
                     Some(KeyKeeperAction::SetImdsRuleId { rule_id, response }) => {
+                        #[cfg(azure_guestproxyagent_verif)]
+                        crate::shared_state::verif_actor::on_message("key_keeper", "SetImdsRuleId");
                         imds_rule_id = rule_id.to_string();
                         if response.send(()).is_err() {
                             logger::write_warning(format!(
@@ -200,6 +214,8 @@ impl KeyKeeperSharedState {
                         }
                     }
                     Some(KeyKeeperAction::GetImdsRuleId { response }) => {
+                        #[cfg(azure_guestproxyagent_verif)]
+                        crate::shared_state::verif_actor::on_message("key_keeper", "GetImdsRuleId");
                         if let Err(rule_id) = response.send(imds_rule_id.clone()) {
                             logger::write_warning(format!(
                                 "Failed to send response to KeyKeeperAction::GetImdsRuleId '{}'",
@@ -208,6 +224,8 @@ impl KeyKeeperSharedState {
                         }
                     }
                     Some(KeyKeeperAction::GetHostGARuleId { response }) => {
+                        #[cfg(azure_guestproxyagent_verif)]
+                        crate::shared_state::verif_actor::on_message("key_keeper", "GetHostGARuleId");
                         if let Err(rule_id) = response.send(hostga_rule_id.clone()) {
                             logger::write_warning(format!(
                                 "Failed to send response to KeyKeeperAction::GetHostGARuleId '{}'",
@@ -216,6 +234,8 @@ impl KeyKeeperSharedState {
                         }
                     }
                     Some(KeyKeeperAction::SetHostGARuleId { rule_id, response }) => {
+                        #[cfg(azure_guestproxyagent_verif)]
+                        crate::shared_state::verif_actor::on_message("key_keeper", "SetHostGARuleId");
                         hostga_rule_id = rule_id.to_string();
                         if response.send(()).is_err() {
                             logger::write_warning(format!(
@@ -225,6 +245,8 @@ impl KeyKeeperSharedState {
                         }
                     }
                     Some(KeyKeeperAction::SetWireServerRules { rules, response }) => {
+                        #[cfg(azure_guestproxyagent_verif)]
+                        crate::shared_state::verif_actor::on_message("key_keeper", "SetWireServerRules");
                         wireserver_rules = rules;
                         if response.send(()).is_err() {
                             logger::write_warning(
@@ -234,6 +256,8 @@ impl KeyKeeperSharedState {
                         }
                     }
                     Some(KeyKeeperAction::GetWireServerRules { response }) => {
+                        #[cfg(azure_guestproxyagent_verif)]
+                        crate::shared_state::verif_actor::on_message("key_keeper", "GetWireServerRules");
                         if response.send(wireserver_rules.clone()).is_err() {
                             logger::write_warning(
                                 "Failed to send response to KeyKeeperAction::GetWireServerRules"
@@ -242,6 +266,8 @@ impl KeyKeeperSharedState {
                         }
                     }
                     Some(KeyKeeperAction::SetImdsRules { rules, response }) => {
+                        #[cfg(azure_guestproxyagent_verif)]
+                        crate::shared_state::verif_actor::on_message("key_keeper", "SetImdsRules");
                         imds_rules = rules;
                         if response.send(()).is_err() {
                             logger::write_warning(
@@ -251,6 +277,8 @@ impl KeyKeeperSharedState {
                         }
                     }
                     Some(KeyKeeperAction::GetImdsRules { response }) => {
+                        #[cfg(azure_guestproxyagent_verif)]
+                        crate::shared_state::verif_actor::on_message("key_keeper", "GetImdsRules");
                         if response.send(imds_rules.clone()).is_err() {
                             logger::write_warning(
                                 "Failed to send response to KeyKeeperAction::GetImdsRules"
@@ -259,6 +287,8 @@ impl KeyKeeperSharedState {
                         }
                     }
                     Some(KeyKeeperAction::SetHostGARules { rules, response }) => {
+                        #[cfg(azure_guestproxyagent_verif)]
+                        crate::shared_state::verif_actor::on_message("key_keeper", "SetHostGARules");
                         hostga_rules = rules;
                         if response.send(()).is_err() {
                             logger::write_warning(
@@ -268,6 +298,8 @@ impl KeyKeeperSharedState {
                         }
                     }
                     Some(KeyKeeperAction::GetHostGARules { response }) => {
+                        #[cfg(azure_guestproxyagent_verif)]
+                        crate::shared_state::verif_actor::on_message("key_keeper", "GetHostGARules");
                         if response.send(hostga_rules.clone()).is_err() {
                             logger::write_warning(
                                 "Failed to send response to KeyKeeperAction::GetHostGARules"
@@ -276,6 +308,8 @@ impl KeyKeeperSharedState {
                         }
                     }
                     Some(KeyKeeperAction::GetNotify { response }) => {
+                        #[cfg(azure_guestproxyagent_verif)]
+                        crate::shared_state::verif_actor::on_message("key_keeper", "GetNotify");
                         if response.send(notify.clone()).is_err() {
                             logger::write_warning(
                                 "Failed to send response to KeyKeeperAction::GetNotify".to_string(),
